@@ -455,6 +455,9 @@ gotheaders(struct http_cookie * H, uint8_t * buf, size_t buflen)
 	/* Consume the headers from the buffered reader. */
 	netbuf_read_consume(H->R, H->res_headlen);
 
+	/* We haven't looked at any of the data which follows the headers. */
+	H->hepos = 0;
+
 	/* Count header lines. */
 	for (H->res.nheaders = 0, bufpos = 0;
 	    bufpos < H->res_headlen;
